@@ -104,6 +104,12 @@ func newWorld(c *core.Ctx, kind string, at int) *world {
 				return &payloads.ActivateResponsePayload{UniqueIdentifier: id}
 			})
 		}
+		if w.kind == "server-replies-garbage" && ord == w.at && !w.fired.Swap(true) {
+			// a correctly delimited frame whose content does not decode; the connection stays open and nothing else comes
+			frame := []byte{0x42, 0x00, 0x7B, 0x01, 0, 0, 0, 16, 0x42, 0x00, 0x7A, 0x7F, 0, 0, 0, 4, 1, 2, 3, 4, 0, 0, 0, 0}
+			conn.Write(frame)
+			return nil
+		}
 		if w.kind == "server-replies-with-eof" && (w.at < 0 || ord == w.at || (w.at >= 1000 && id != "discover")) {
 			// the reply and the end of the stream arrive together: the client's Read that completes the response reports io.EOF with it
 			w.fired.Store(true)
@@ -596,6 +602,40 @@ func contextLooks(c *core.Ctx, r *core.Rand, i int) {
 	core.Guard(func() { cl.Close() })
 	w.srv.Close()
 	leak(c, base, "context-look", label)
+}
+
+// repliesGarbage: the answer to one request is a complete frame that does not decode, on a connection that stays open.
+// The call returns an error (it does not wait for ever), and the following calls succeed.
+func repliesGarbage(c *core.Ctx, r *core.Rand, i int) {
+	at := i % 6
+	label := fmt.Sprintf("garbage%d@%d", i, at)
+	base := len(census.Goroutines())
+	w := newWorld(c, "server-replies-garbage", at)
+	var cl *kmipclient.Client
+	var err error
+	if p, pv, st := core.Guard(func() { cl, err = kmipclient.Dial("mem", kmipclient.WithDialerUnsafe(w.dialer)) }); p {
+		c.Violation(core.PanicSig(pv, st), fmt.Sprintf("Dial panicked (%s): %v", label, pv), map[string]any{"stack": st})
+		w.srv.Close()
+		return
+	}
+	if err != nil {
+		// the negotiation got the undecodable answer: a second Dial meets a well-behaved server
+		if cl, err = kmipclient.Dial("mem", kmipclient.WithDialerUnsafe(w.dialer)); err != nil {
+			c.Violation("C11:no-recovery:server-replies-garbage", fmt.Sprintf("a second Dial fails too: %v (%s)", err, label), nil)
+			w.srv.Close()
+			return
+		}
+	}
+	var outs []outcome
+	for k := 1; k <= 4; k++ {
+		outs = append(outs, w.call(cl, fmt.Sprintf("%s-call%d", label, k)))
+	}
+	c.Count("undecodable_reply_scenarios", 1)
+	c.Distinct(core.Hash64("garbage-reply", fmt.Sprint(at)))
+	w.judge(label, outs)
+	core.Guard(func() { cl.Close() })
+	w.srv.Close()
+	leak(c, base, "server-replies-garbage", label)
 }
 
 // reconnect failures: the dialer itself fails a few times after the fault, then recovers
@@ -1245,7 +1285,7 @@ func Spec() *core.Spec {
 			"Monitors: panic/crash, own-id response or error, never two consecutive failed calls, <= 4 transmissions per request, calls fail after Close, goroutine census after Close. a response whose frame-completing Read is handed over only when the connection is closed (call abandoned by cancel, deadline or Close); Close() under a pending call on a transport whose Close is slow; a reconnection dial that stalls until the caller's deadline; a write stalling past the caller's deadline; Dial losing its first connection and failing the negotiation on the second; two fault kinds that leave the peer healthy (io.ErrShortWrite; error after complete delivery); distinct = distinct (scenario kind, fault kind, operation index)",
 		Assumptions: []string{"recovery rule used: while the server is reachable and new connections are fault-free, two consecutive calls never both fail (a call pending at, or first after, the fault may fail)",
 			"goroutines gone = none with a library frame within 10 s of closing the client and the server (bounded progress)"},
-		Required: []string{"calls", "give_up_scenarios.closed-after-failed-redials", "context_look_faults_fired.mode0", "context_look_faults_fired.mode1", "context_look_faults_fired.mode2", "reply_with_eof_scenarios.mode0", "reply_with_eof_scenarios.mode1", "reply_with_eof_scenarios.mode2", "late_responses_held", "stalled_writes", "closes_under_a_call", "calls_queued_behind_a_call_at_close", "stalled_redials", "negotiation_reconnects.second-connection-used", "double_faults_both_fired", "faults_fired.read-eof", "faults_fired.read-reset", "faults_fired.write-epipe", "faults_fired.short-write", "faults_fired.short-write-peer-stays", "faults_fired.write-error-after-delivery", "faults_fired.server-closes-after-reply", "faults_fired.server-closes-after-read",
+		Required: []string{"calls", "undecodable_reply_scenarios", "give_up_scenarios.closed-after-failed-redials", "context_look_faults_fired.mode0", "context_look_faults_fired.mode1", "context_look_faults_fired.mode2", "reply_with_eof_scenarios.mode0", "reply_with_eof_scenarios.mode1", "reply_with_eof_scenarios.mode2", "late_responses_held", "stalled_writes", "closes_under_a_call", "calls_queued_behind_a_call_at_close", "stalled_redials", "negotiation_reconnects.second-connection-used", "double_faults_both_fired", "faults_fired.read-eof", "faults_fired.read-reset", "faults_fired.write-epipe", "faults_fired.short-write", "faults_fired.short-write-peer-stays", "faults_fired.write-error-after-delivery", "faults_fired.server-closes-after-reply", "faults_fired.server-closes-after-read",
 			"census_checks", "calls_after_close", "repeated_drops.k4", "repeated_drops.k5", "dialer_failure_scenarios", "concurrent_scenarios", "directed.terminate-before-send-select", "directed.close-in-flight"},
 		Shards: func(string) int { return 8 },
 		Families: []core.Family{
@@ -1264,6 +1304,13 @@ func Spec() *core.Spec {
 				}
 				return 8
 			}, Run: clusterPool, Timeout: 120 * time.Second},
+			{Name: "dial-context", N: func(tier string) int {
+				if tier == core.Thorough {
+					return 100
+				}
+				return 4
+			}, Run: dialContextRecovery, Timeout: 120 * time.Second},
+			{Name: "replies-garbage", Exhaustive: true, N: func(string) int { return 12 }, Run: repliesGarbage, Timeout: 30 * time.Second},
 			{Name: "replies-with-eof", N: func(tier string) int {
 				if tier == core.Thorough {
 					return 600
